@@ -75,12 +75,12 @@ def tree_step(ctx, facts, rule="TREE-STEP"):
                     problems.append(("carried value", "the carried value takes the sibling's value when %s, expected when it is smaller than the sibling (max of the two children)" % nf.all_conditions(t, n, stop=loop)[:1]))
     # 4 start: only if strictly smaller than the slot
     mores = [(nf.nf(n["r"]), nf.all_conditions(t, n, stop=loop if t.contains(loop, n) else None, res=R)) for n in user_nodes(fn) if n["k"] == "Assign" and nf.nf(n["l"]) == MORE]
-    init = [nf.nf(e) for e in def_exprs(fn, MORE)][:1] if MORE else []
-    if init != ["false"]:
-        problems.append(("start", "the walk flag must start false"))
+    init = [nf.nf(e, True) for e in def_exprs(fn, MORE)][:1] if MORE else []
     trues = [c for (v, c) in mores if v == "true"]
-    if len(trues) != 1 or trues[0][:1] != [("cmp", V, "<", "self.values[%s]" % K)]:
-        problems.append(("start", "the walk must start exactly when value < values[k] (strict: slots only decrease); found %s" % trues))
+    direct = init == ["(%s < self.values[%s])" % (V, K)] and not trues          # let mut more = value < values[k];
+    classic = init == ["false"] and len(trues) == 1 and trues[0][:1] == [("cmp", V, "<", "self.values[%s]" % K)]
+    if not (direct or classic):
+        problems.append(("start", "the walk must start exactly when value < values[k] (strict: slots only decrease); the flag starts as %s and is set when %s" % (init, trues)))
     falses = [c for (v, c) in mores if v == "false"]
     for c in falses:
         if c[:1] not in ([("cmp", "self.values[%s]" % K, "<=", V)], [("cmp", "self.values[%s]" % K, "<", V)]):
